@@ -379,8 +379,10 @@ def generate(tier, rng):
     # H. several messages on one flow (reset after a complete message, fix ab1cb4b)
     c1, c2 = call(xid=0x81000001, vers=2, proc=3, tcp=True), call(xid=0x81000002, vers=4, proc=4, cred=b"abc", tcp=True)
     reply_msg = call(xid=0x81000003, mtype=1, tcp=True)
+    nl = lambda m, top=0: struct.pack("!I", (top << 24) | (len(m) - 4)) + m[4:]      # record mark without the last-fragment bit
     flows = [[c1, c2], [c1 + c2], [c1, b"garbage that is not a call at all........"], [c1, c2[:20], c2[20:]],
-             [c1[:30], c1[30:], c2], [c1, reply_msg, c2], [c1 + b"xx", c2], [c1, b"", c2]]
+             [c1[:30], c1[30:], c2], [c1, reply_msg, c2], [c1 + b"xx", c2], [c1, b"", c2],
+             [c1, nl(c2), b"more bytes", c1, reply_msg], [nl(c1, 0x40), b"x", c2, reply_msg], [c1, nl(c2), nl(c1), c2]]
     fr = []
     for i, segs in enumerate(flows):
         fr += gens.handshake(KEY, gens.PEER4, gens.SELF4, 5000 + i, 111, segs)
